@@ -5,6 +5,8 @@
 //                        | (1 opcode (n..))    NextWriter(opcode); Write(n bytes)..; Close()
 //                        | (2 opcode n)        WriteMessage(opcode, n bytes)
 //                        | (3)                 Conn.Close()
+//                        | (4 len)             the peer sends a Ping (len payload bytes); the READING goroutine
+//                                              answers it through the default ping handler
 //   action = (0 t)       goroutine t starts its next operation
 //          | (1 p next)  the transport Write goroutine p is blocked in returns; `next` is the goroutine
 //                        whose transport Write is seen pending afterwards (-1: none)
@@ -57,6 +59,9 @@ type vC15Conn struct {
 	maxPend   int
 	readBlock chan bool
 	notify    chan bool
+	incoming  chan []byte // frames the peer sends; the reading goroutine gets them from Read
+	rest      []byte
+	idle      int // times the reader came back to Read with nothing to read
 }
 
 var vC15ErrClosed = errors.New("verif transport closed")
@@ -67,8 +72,41 @@ func (vC15Addr) Network() string { return "verif" }
 func (vC15Addr) String() string  { return "verif" }
 
 func (c *vC15Conn) Read(p []byte) (int, error) {
-	<-c.readBlock
-	return 0, io.EOF
+	if len(c.rest) == 0 {
+		c.mu.Lock()
+		c.idle++
+		c.mu.Unlock()
+		c.poke()
+		select {
+		case b := <-c.incoming:
+			c.rest = b
+		case <-c.readBlock:
+			return 0, io.EOF
+		}
+	}
+	n := copy(p, c.rest)
+	c.rest = c.rest[n:]
+	return n, nil
+}
+func (c *vC15Conn) idleCount() int {
+	c.mu.Lock()
+	defer c.mu.Unlock()
+	return c.idle
+}
+
+// a Ping frame as the peer sends it (masked when the Conn under test is the server)
+func vC15PingFrame(toServer bool, payload []byte) []byte {
+	b := []byte{0x89, byte(len(payload))}
+	if !toServer {
+		return append(b, payload...)
+	}
+	b[1] |= 0x80
+	key := [4]byte{0x11, 0x22, 0x33, 0x44}
+	b = append(b, key[:]...)
+	for i, x := range payload {
+		b = append(b, x^key[i&3])
+	}
+	return b
 }
 func (c *vC15Conn) Write(p []byte) (int, error) {
 	pw := &vC15Pending{data: append([]byte(nil), p...), release: make(chan bool, 1)}
@@ -328,6 +366,8 @@ func vC15ParseCase(c vSx) (server bool, B int, threads [][]vC15Op, ok bool) {
 				ops = append(ops, op)
 			case o.l[0].i64() == 3 && len(o.l) == 1:
 				ops = append(ops, vC15Op{kind: 3})
+			case o.l[0].i64() == 4 && len(o.l) == 2 && o.l[1].isInt() && o.l[1].int() >= 4 && o.l[1].int() <= 125:
+				ops = append(ops, vC15Op{kind: 4, opcode: 10, n: o.l[1].int()})
 			default:
 				return
 			}
@@ -364,6 +404,8 @@ func vC15OpsSx(threads [][]vC15Op) vSx {
 				l = append(l, vL(vZ(1), vI(o.opcode), vLs(ws)))
 			case 2:
 				l = append(l, vL(vZ(2), vI(o.opcode), vI(o.n)))
+			case 4:
+				l = append(l, vL(vZ(4), vI(o.n)))
 			default:
 				l = append(l, vL(vZ(3)))
 			}
@@ -415,7 +457,7 @@ func vC15Run(server bool, B int, threads [][]vC15Op, plan vC15Plan) vC15Result {
 			res.fails = append(res.fails, vC15FailT{o, d})
 		}
 	}
-	tc := &vC15Conn{readBlock: make(chan bool), notify: make(chan bool, 1)}
+	tc := &vC15Conn{readBlock: make(chan bool), notify: make(chan bool, 1), incoming: make(chan []byte, 64)}
 	conn := newConn(tc, server, 1024, B)
 	n := len(threads)
 	dataT := -1
@@ -428,13 +470,20 @@ func vC15Run(server bool, B int, threads [][]vC15Op, plan vC15Plan) vC15Result {
 	}
 	// a reader, as the property describes; it sees EOF when the transport is closed
 	readerDone := make(chan bool)
+	var readerPanic string
 	go func() {
+		defer close(readerDone)
+		defer func() {
+			if r := recover(); r != nil {
+				readerPanic = fmt.Sprint(r)
+				tc.poke()
+			}
+		}()
 		for {
 			if _, _, err := conn.ReadMessage(); err != nil {
 				break
 			}
 		}
-		close(readerDone)
 	}()
 
 	start := make([]chan int, n)
@@ -471,6 +520,26 @@ func vC15Run(server bool, B int, threads [][]vC15Op, plan vC15Plan) vC15Result {
 					}
 				case 2:
 					err = conn.WriteMessage(o.opcode, vC15DataBytes(o.msgIdx, 0, o.n))
+				case 4:
+					// the peer sends a Ping; the READING goroutine answers it through the default
+					// ping handler; the operation ends when the reader is back in Read
+					before := tc.idleCount()
+					tc.incoming <- vC15PingFrame(server, vC15CtlPayload(9, t, k, o.n))
+					dl := time.Now().Add(3 * time.Second)
+					for tc.idleCount() == before && time.Now().Before(dl) {
+						select {
+						case <-readerDone:
+							dl = time.Now()
+						case <-time.After(100 * time.Microsecond):
+						}
+					}
+					select {
+					case <-readerDone: // the reader has ended (transport closed, Close received): no answer is due
+					default:
+						if tc.idleCount() == before {
+							err = errors.New("reader did not come back")
+						}
+					}
 				default:
 					err = conn.Close()
 				}
@@ -557,7 +626,7 @@ func vC15Run(server bool, B int, threads [][]vC15Op, plan vC15Plan) vC15Result {
 			lateStart = append(lateStart, [2]int{t, k})
 		}
 		o := threads[t][k]
-		if o.kind == 0 && midFrame {
+		if (o.kind == 0 || o.kind == 4) && midFrame {
 			ctlDuringFrame = true
 		}
 		start[t] <- k
@@ -741,7 +810,8 @@ func vC15Run(server bool, B int, threads [][]vC15Op, plan vC15Plan) vC15Result {
 				tid, k = int(p[0]), int(p[1])
 			}
 			owner = tid
-			okc := f.complete && tid >= 0 && tid < n && k >= 0 && k < len(threads[tid]) && threads[tid][k].kind == 0 &&
+			okc := f.complete && tid >= 0 && tid < n && k >= 0 && k < len(threads[tid]) &&
+				(threads[tid][k].kind == 0 || (threads[tid][k].kind == 4 && f.opcode == 10)) &&
 				threads[tid][k].opcode == f.opcode && string(f.payload) == string(vC15CtlPayload(f.opcode, tid, k, threads[tid][k].n))
 			if !okc {
 				whole = false
@@ -783,6 +853,28 @@ func vC15Run(server bool, B int, threads [][]vC15Op, plan vC15Plan) vC15Result {
 		}
 		obsFrames = append(obsFrames, vL(vI(owner), vI(f.opcode), vBool(f.fin), vI(f.length), vBool(f.complete)))
 	}
+	if readerPanic != "" {
+		bad("reader-panicked", "the reading goroutine panicked: "+readerPanic)
+	}
+	for t := 0; t < n; t++ {
+		for k, o := range threads[t] {
+			if o.kind == 4 && k < len(results[t]) {
+				if results[t][k] != 0 {
+					bad("ping-answered", fmt.Sprintf("goroutine %d op %d: the reader did not come back to reading after the Ping", t, k))
+				}
+				if ctlSeen[[2]int{t, k}] == 1 {
+					results[t][k] = 0
+				} else {
+					results[t][k] = 9
+					if !sawClose && !closeConnDone {
+						// no Close frame, transport open: the pong may only be missing when its lock
+						// wait timed out (writeWait) -- the driver never holds a frame that long
+						bad("ping-answered", fmt.Sprintf("goroutine %d op %d: no Pong with the Ping's payload on the wire", t, k))
+					}
+				}
+			}
+		}
+	}
 	// results against the wire
 	for t := 0; t < n; t++ {
 		if len(results[t]) != len(threads[t]) {
@@ -812,9 +904,19 @@ func vC15Run(server bool, B int, threads [][]vC15Op, plan vC15Plan) vC15Result {
 			}
 		}
 	}
+	if !sawClose && !closeConnDone && dataT >= 0 && len(results[dataT]) == len(threads[dataT]) {
+		for kk, r := range results[dataT] {
+			if r != 0 {
+				bad("writer-undisturbed", fmt.Sprintf("data message op %d failed with result %d although no Close was sent and the transport is open", kk, r))
+			}
+		}
+		if msg != len(dataOps) {
+			bad("writer-undisturbed", fmt.Sprintf("%d of %d data messages are completely on the wire", msg, len(dataOps)))
+		}
+	}
 	for _, ls := range lateStart {
 		t, k := ls[0], ls[1]
-		if threads[t][k].kind == 3 || k >= len(results[t]) {
+		if threads[t][k].kind == 3 || threads[t][k].kind == 4 || k >= len(results[t]) {
 			continue
 		}
 		if results[t][k] != 1 {
@@ -932,6 +1034,9 @@ func vC15GenConfig(r *vRng) (bool, int, [][]vC15Op) {
 		}
 	}
 	threads = append(threads, dops)
+	if r.chance(1, 3) {
+		threads = append(threads, []vC15Op{{kind: 4, opcode: 10, n: r.rng(4, 60)}})
+	}
 	if r.chance(1, 4) {
 		threads = append(threads, []vC15Op{{kind: 3}})
 	}
@@ -1021,6 +1126,47 @@ func TestVerifC15(t *testing.T) {
 					phase = 2
 				}
 				return -1 // drain: release the data frame, run the rest
+			}))
+		}
+	}
+	// 1c. peer Pings answered by the READING goroutine while the writer is between the two transport
+	// writes of a large frame / between the frames of a fragmented message that is still open
+	pingCfgs := [][][]vC15Op{
+		vC15Fix([][]vC15Op{{{kind: 4, opcode: 10, n: 8}, {kind: 4, opcode: 10, n: 20}}, {vC15Msg(1, 10, 100, 3, 40), vC15WM(2, 60)}}),
+		vC15Fix([][]vC15Op{{{kind: 4, opcode: 10, n: 6}}, {vC15Ctl(false, 9, 8)}, {vC15Msg(2, 16, 16, 5), vC15Msg(1, 8, 200, 8)}}),
+		vC15Fix([][]vC15Op{{{kind: 4, opcode: 10, n: 125}, {kind: 4, opcode: 10, n: 4}}, {vC15WM(2, 300), vC15Msg(1, 16, 1)}}),
+	}
+	for _, th := range pingCfgs {
+		for nrel := 0; nrel < 4 && !stop(); nrel++ {
+			dataT := len(th) - 1
+			rels, phase := 0, 0
+			want := nrel
+			record(vC15Run(true, 16, th, func(i int, rel bool, mid bool, st []int) int {
+				if i == 0 {
+					return 1 + dataT
+				}
+				if phase == 0 {
+					if rels < want && rel {
+						rels++
+						return 0
+					}
+					phase = 1
+				}
+				if phase == 1 {
+					phase = 2
+					for _, t := range st {
+						if t == 0 {
+							return 1 // the Ping arrives now; its Pong waits for the lock behind the frame
+						}
+					}
+				}
+				if rel {
+					return 0
+				}
+				for _, t := range st {
+					return 1 + t
+				}
+				return -1
 			}))
 		}
 	}
